@@ -46,6 +46,7 @@ type commitRec struct {
 	atUs      int64
 	e         uint64
 	accepted  bool
+	stale     bool // refused by a broker that is not the group's coordinator (any more)
 	errCode   int16
 	faulted   string
 	member    string
@@ -185,6 +186,7 @@ func (g *groupModel) offsetCommit(br *mbroker, r *sarama.OffsetCommitRequest, fa
 		switch {
 		case br.id != g.coordinator:
 			code = int16(sarama.ErrNotCoordinatorForConsumer)
+			cr.stale = true
 		case g.loading:
 			code = int16(sarama.ErrOffsetsLoadInProgress)
 		case groupErr != 0:
